@@ -45,7 +45,45 @@ def setup(tier):
     C.setup_probes()
 
 
+def _ed_case(i, rng, tier):
+    """Operands built with the public ed() constructors (sequences as tuples or lists): a += b has the content of a + b,
+    stays the same object, leaves b unchanged, and shares nothing with b afterwards."""
+    from .. import observe as O
+
+    kind = C.ED_KINDS[(i // 20) % len(C.ED_KINDS)]
+    sp = S.default_child(kind, rng, {"flavours": ("lambda",)})
+    sa, sb, sc = (S.gen_stream(rng, sp, rng.randint(0, 5), {"nonpos_p": 0.0}) for _ in range(3))
+    failures = []
+    counters = {"ed_built_cases": 1}
+    wit = {"tree": S.describe(sp), "spec": sp, "stream_a": C.stream_json(sa), "stream_b": C.stream_json(sb)}
+    ha, hb, hc = (C.fill_all(S.build(sp), st) for st in (sa, sb, sc))
+    for seq_a, seq_b in ((tuple, tuple), (list, tuple), (tuple, list)):
+        try:
+            a, b, c2 = C.ed_variant(ha, seq_a), C.ed_variant(hb, seq_b), C.ed_variant(hc, seq_b)
+            want = O.text(a + b)
+            tb = O.text(b)
+            ida = id(a)
+            a += b
+            counters["iadd_vs_add"] = counters.get("iadd_vs_add", 0) + 1
+            if id(a) != ida:
+                failures.append(C.fail(None, "a += b on ed()-built %s rebound a to another object" % kind, **wit))
+            if O.text(a) != want:
+                d = O.diff(__import__("json").loads(want), __import__("json").loads(O.text(a)), 0.0, exact=True)
+                failures.append(C.fail(None, "ed()-built %s (%s += %s): a += b differs from a + b: %s" % (kind, seq_a.__name__, seq_b.__name__, C.fmt_diff(d)), **wit))
+            if O.text(b) != tb:
+                failures.append(C.fail(None, "ed()-built %s: a += b changed b" % kind, **wit))
+            ta = O.text(a)
+            b += c2
+            if O.text(a) != ta:
+                failures.append(C.fail(None, "ed()-built %s: after a += b, merging into b changed a (shared state)" % kind, **wit))
+        except Exception as e:  # noqa: BLE001
+            failures.append(C.fail(None, "ed()-built %s (%s += %s) raised %s: %s" % (kind, seq_a.__name__, seq_b.__name__, type(e).__name__, str(e)[:160]), **wit))
+    return {"digest": C.digest("ed", sp, wit["stream_a"], wit["stream_b"]), "nontrivial": counters.get("iadd_vs_add", 0) > 0, "failures": failures[:4], "counters": counters, "sets": {"kinds": S.kinds_in(sp)}, "sample": {"kind": "ed()-built operands", "tree": S.describe(sp)}}
+
+
 def run_case(i, rng, tier):
+    if i % 20 == 11:
+        return _ed_case(i, rng, tier)
     label, sp = C.pick_spec(i, rng, tier)
     n_ops = rng.randint(10, 25 if tier == "quick" else 40)
     h = H.run_history(sp, rng, PROFILE, n_ops, rng.randint(3, 5))
